@@ -64,13 +64,15 @@ def pristine():
     r, d = find_zerox(sig, p, t)
     sigz = S.word_signal('aaazzzzaaa')            # a gated recording: cycles lying entirely inside an exact-zero stretch
     dfz = compute_shape_features(sigz, FS, FR)
+    from bycycle import Bycycle
+    bm = Bycycle(thresholds=dict(thr))          # one analysis object re-used by the caller (its own tables change, its SETTINGS must not)
     sigL = S.long_signal('@E')[:1500]             # two recordings of more than 1000 samples that differ only in the interior
     sigL2 = sigL.copy()
     sigL2[600:700] += 3.
     bufA = S.word_signal('aadaaazzaaaadaan')
     bufB = 2.0 * S.word_signal('bbnbbdabbbzbbeaa') + 1.0
     buf = np.zeros(len(bufA))
-    return dict(sigL=sigL, sigL2=sigL2, sigz=sigz, dfz=dfz, buf=buf, bufA=bufA, bufB=bufB, dfnb=dfnb, bk8=bk8, dfs_off=dfs_off, dfc_off=dfc_off, fek_empty=fek_empty, fek_other=fek_other, sig=sig, thr=thr, thra=thra, thram=thram, bk=bk, bkm=bkm, bkfull=bkfull, fek=fek, sigs2=sigs2, sigs3=sigs3,
+    return dict(bm=bm, sigL=sigL, sigL2=sigL2, sigz=sigz, dfz=dfz, buf=buf, bufA=bufA, bufB=bufB, dfnb=dfnb, bk8=bk8, dfs_off=dfs_off, dfc_off=dfc_off, fek_empty=fek_empty, fek_other=fek_other, sig=sig, thr=thr, thra=thra, thram=thram, bk=bk, bkm=bkm, bkfull=bkfull, fek=fek, sigs2=sigs2, sigs3=sigs3,
                 cfk=cfk, cfka=cfka, cfkl=cfkl, cfkl2=cfkl2, dfc=dfc, dft=dft, dfa=dfa, dfs=dfs, p=p, t=t, r=r, d=d)
 
 
@@ -143,6 +145,10 @@ def alphabet():
         'cf_band6.25': lambda s: compute_features(s['sig'], FS, (6.25, 14.75), threshold_kwargs=s['thr']),
         'cf_fs64.5': lambda s: compute_features(s['sig'], 64.5, FR, threshold_kwargs=s['thr']),
         'shape_nc3.5': lambda s: compute_shape_features(s['sig'], FS, FR, n_cycles=3.5),
+        # a re-used analysis object: fitting again after an edge recomputation gives the table of a fresh fit
+        'obj_fit': lambda s: (s['bm'].fit(s['sig'], FS, FR), s['bm'].df_features.copy())[1],
+        'obj_fit_edges': lambda s: (s['bm'].fit(s['sig'], FS, FR), s['bm'].recompute_edges(.05), s['bm'].df_features.copy())[2],
+        'obj_fit_other': lambda s: (s['bm'].fit(s['bufB'], FS, FR), s['bm'].df_features.copy())[1],
         # a table that went through the documented rename work-flow, and its twin rebuilt from the plain column values (same columns,
         # values, dtypes, labels - no hidden metadata): equal tables give equal results
         'rename_cons': lambda s: _rename_chain(s, compute_features, rename_extrema_df, compute_amp_consistency, recompute_edges, False),
@@ -237,7 +243,7 @@ def alphabet():
     return A
 
 
-NAMES = ['rename_cons', 'rename_cons_tw', 'amp_longA', 'amp_longB', 'cf_longA', 'cf_longB', 'cf_band6.5', 'cf_band6.25', 'cf_fs64.5', 'shape_nc3.5', 'ampcons_z', 'percons_z', 'burstfeat_z', 'cf_z', 'cf_trough_tw', 'cf_amp_tw', 'shape_t_tw', 'h_rename_tw', '2d_dict_tw', '2d_none_tw', 'h_rename_nosamp', 'h_rename', 'h_split', 'h_flatten', 'h_detect_c', 'h_detect_a', 'h_minrun', 'burstfeat_c_off', 'edges_off',
+NAMES = ['obj_fit', 'obj_fit_edges', 'obj_fit_other', 'rename_cons', 'rename_cons_tw', 'amp_longA', 'amp_longB', 'cf_longA', 'cf_longB', 'cf_band6.5', 'cf_band6.25', 'cf_fs64.5', 'shape_nc3.5', 'ampcons_z', 'percons_z', 'burstfeat_z', 'cf_z', 'cf_trough_tw', 'cf_amp_tw', 'shape_t_tw', 'h_rename_tw', '2d_dict_tw', '2d_none_tw', 'h_rename_nosamp', 'h_rename', 'h_split', 'h_flatten', 'h_detect_c', 'h_detect_a', 'h_minrun', 'burstfeat_c_off', 'edges_off',
          'limit_off', 'epoch_off', 'mono_off', 'cf_fek_empty', 'shape_fek_other', 'extrema_fk_empty', 'cf_fail_t', 'cf_fail_amp', 'shape_fail_t', 'amp_buf_A', 'amp_buf_B', 'cf_default', 'cf_default_t', 'cf_amp_default', 'cf_amp_nothr_m8', 'edges_noburst', 'cf_buf_A', 'cf_buf_B', 'shape_buf_B', 'cf_cycles', 'cf_trough', 'cf_amp', 'cf_amp_m', 'cf_amp_t', 'cf_nosamp', 'shape', 'shape_t', 'cyclepoints',
          'burstfeat_c', 'burstfeat_a', 'ampfrac', 'ampcons', 'percons', 'mono', 'bfrac', 'extrema', 'zerox', 'phase',
          '2d_dict', '2d_amp', '2d_list', '2d_none', '2d_none_list', '3d', '3d_1', '3d01', 'edges', 'edges_t', 'limit',
@@ -250,7 +256,7 @@ REF = {}          # call name -> fingerprint hash of its fresh-state result (fil
 
 def state_fp(s):
     # 'buf' is the caller's own scratch array (the harness overwrites it between calls): not part of the state
-    return h64(repr((fingerprint({k: v for k, v in s.items() if k != 'buf'}), repr(pd.options.mode.chained_assignment))))
+    return h64(repr((fingerprint({k: v for k, v in s.items() if k not in ('buf', 'bm')}), repr(pd.options.mode.chained_assignment))))
 
 
 def result_fp(r):
@@ -281,7 +287,7 @@ def run_history(hist):
     else:
         s = pristine()
     f0 = state_fp(s)
-    base = {k: fingerprint(v) for k, v in s.items() if k != 'buf'}
+    base = {k: fingerprint(v) for k, v in s.items() if k not in ('buf', 'bm')}
     steps = []
     for step, name in enumerate(hist):
         np.random.seed(0)
